@@ -194,6 +194,24 @@ def check_query_claimable(ctx, model):
                     # closure returns the negation
                     neg = any(s_["rv"]["r"] == "un" and s_["rv"]["op"] == "Not" and s_["lhs"]["l"] == 0 for _, _, s_ in cv.iter_stmts())
                     emptiness.append((fld, neg))
+                # the same test spelled with len(): `x.len() > 0`, `x.len() != 0`, `x.len() >= 1` (either operand order)
+                from ..dataflow import const_of
+                for xb, xi, s_ in cv.iter_stmts():
+                    rv = s_["rv"]
+                    if s_["lhs"]["l"] != 0 or rv["r"] != "bin" or rv["op"] not in ("Gt", "Ne", "Ge", "Lt", "Le"):
+                        continue
+                    for x, y, op in ((rv["a"], rv["b"], rv["op"]), (rv["b"], rv["a"], {"Gt": "Lt", "Lt": "Gt", "Ge": "Le", "Le": "Ge", "Ne": "Ne"}[rv["op"]])):
+                        xo = cv.origins_of_operand(x, at=(xb, xi))
+                        k = const_of(cv, y, (xb, xi))
+                        if k is None or not xo or not all(o.kind == "call" and o.a.endswith("Vec::len") for o in xo):
+                            continue
+                        fld = set()
+                        for o in xo:
+                            c = call_of(cv, o)
+                            if c:
+                                fld |= {z.proj[-1] for z in cv.origins_of_operand(c[1]["args"][0], at=cv.at_term(c[0])) if z.proj}
+                        keeps_nonempty = (op, k) in (("Gt", 0), ("Ne", 0), ("Ge", 1))
+                        emptiness.append((sorted(fld), keeps_nonempty))
     ctx.ob("C09-D6", "%s|filter|forwarded-epochs-excluded" % QC, emptiness == [(["available"], True)],
            "retain closures testing emptiness: %s (must be exactly one, keeping epochs whose `available` is not empty)" % emptiness, v.where())
     # never bonded -> cleared
